@@ -537,7 +537,7 @@ func SpecPred(p *core.Prog, r *core.Report) {
 		{vp, "pathParamRequiredMsg", []string{`\.In == "path"$`, `^!.*Required$`}, nil, "a path parameter must be required"},
 		{vp, "pathParamNotUniqueMsg", []string{` > `, ` == `}, nil, "a placeholder may appear once in a path (p == q at a later position)"},
 		{vp, "pathOverlapMsg", []string{`^found\(`}, nil, "two paths of one method that only differ by parameter names overlap"},
-		{vp, "invalidPatternInParamMsg", []string{`!= nil$`}, nil, "parameter patterns must compile"},
+		{vp, "invalidPatternInParamMsg", []string{`!= nil$`}, []string{`\.(Type|In|Format|Required|MaxLength|MinLength|Items|Schema)\b`}, "parameter patterns must compile, whatever the parameter's type, location or other keywords"},
 		{"(*SpecValidator).validateDuplicateOperationIDs", "nonUniqueOperationIDMsg", []string{` > 1$`}, nil, "an operation id used more than once"},
 		{"(*SpecValidator).checkUniqueParams", "duplicateParamNameMsg", []string{`^found\(`}, []string{`^!found\(`}, "a (location, name) pair already seen for this operation"},
 		{"(*SpecValidator).validatePathParamPresence", "noParameterInPathMsg", []string{`^!flag\{.* == .*\}$`}, nil, "a placeholder of the path has no declared path parameter"},
